@@ -87,8 +87,9 @@ def run_shard(spec, rec):
             wo, el = random_tuples(rng, cands, rng.randint(1, 3 * n))
         elif kind == "redundant":
             wo, el = random_tuples(rng, cands, rng.randint(1, 2 * n))
-            wo = wo + [list(t) for t in wo[: rng.randint(0, len(wo))]]
-            el = el + [list(t) for t in el[: rng.randint(0, len(el))]]
+            flip = rng.random() < 0.6   # the same assertion listed twice, confirmed in one entry and not in the other
+            wo = wo + [[t[0], t[1], (not t[2]) if flip else t[2]] for t in wo[: rng.randint(0, len(wo))]]
+            el = el + [[t[0], list(t[1]), (not t[2]) if flip else t[2]] for t in el[: rng.randint(0, len(el))]]
         elif kind == "inconsistent":
             wo, el = random_tuples(rng, cands, rng.randint(0, n))
             a, b = rng.sample(cands, 2)
@@ -179,7 +180,13 @@ def run_case(case, rec):
         got_neb = set((wo[i][0], wo[i][1]) for i, _p in node.NEBTagList)
         got_irv = set((el[i][0], frozenset(el[i][1])) for i, _p in node.IRVTagList)
         rec.count("pruned_nodes_tag_checked")
-        if got_neb != want_neb or got_irv != want_irv:
+        # by index as well: two entries that differ only in their proved flag are two assertions (both must be tagged);
+        # exact duplicates are one assertion (the module identifies an assertion by list.index)
+        want_neb_idx = set(wo.index(wo[i]) for i in range(len(wo)) if wo[i][0] == c and wo[i][1] in remaining)
+        want_irv_idx = set(el.index(el[i]) for i in range(len(el)) if el[i][0] == c and set(el[i][1]) == remaining)
+        got_neb_idx = set(i for i, _p in node.NEBTagList)
+        got_irv_idx = set(i for i, _p in node.IRVTagList)
+        if got_neb != want_neb or got_irv != want_irv or got_neb_idx != want_neb_idx or got_irv_idx != want_irv_idx:
             rec.violation("c20.tags", "pruned_node_tags_are_not_the_contradicting_assertions",
                           {"path_root_to_node": path, "got_neb": sorted(got_neb), "want_neb": sorted(want_neb),
                            "got_irv": [[a, sorted(b)] for a, b in got_irv], "want_irv": [[a, sorted(b)] for a, b in want_irv]})
